@@ -216,7 +216,7 @@ func panicFrame(stack string) string {
 		}
 		if seenPanic && strings.HasPrefix(l, "github.com/NVIDIA/KAI-scheduler/pkg/") {
 			fn := l
-			if i := strings.Index(fn, "("); i > 0 {
+			if i := strings.LastIndex(fn, "("); i > 0 {
 				fn = fn[:i]
 			}
 			parts := strings.Split(fn, "/")
